@@ -435,12 +435,13 @@ var needs = map[string][]string{
 	"ean13-r-addon-required": {"ean13+5"}, "code39-r-check": {"code39chk"}, "code128-r-gs1": {"code128gs1"}, "itf-r-allowed-lengths": {"itf6"},
 	"codabar-r-startend": {"codabar"}, "dm-r-macro": {"dm-macro"}, "qr-r-gs1": {"qr-gs1"},
 	"qr-r-utf16be": {"qr-utf16be"}, "qr-r-gb18030": {"qr-gb18030"}, "qr-r-euckr": {"qr-euckr"}, "qr-r-big5": {"qr-big5"}, "qr-r-sjis-byte": {"qr-sjis-byte"}, "qr-r-1251": {"qr-1251"},
-	"qr-r-hint-charset": {"qr-pure"}, "lum-views": {"qr-pure"},
+	"qr-r-hint-charset": {"qr-loc"}, "lum-views": {"qr-pure"},
 	"qr-r-v8": {"qr-v8"}, "qr-r-mirrored": {"qr-mirrored"}, "qr-r-mirrored-pure": {"qr-mirrored-pure"}, "qr-r-multi-two": {"qr-two"}, "dm-r-mixed": {"dm-mixed"},
 	"dm-r-sizes":         {"dm-size-0", "dm-size-1", "dm-size-2", "dm-size-3", "dm-size-4", "dm-size-5", "dm-size-6", "dm-size-7", "dm-size-8", "dm-size-9"},
 	"dm-r-rsizes":        {"dm-rsize-0", "dm-rsize-1", "dm-rsize-2", "dm-rsize-3", "dm-rsize-4", "dm-rsize-5"},
 	"code128-r-sideways": {"code128-sideways"}, "lum-rgb-yuv": {"qr-loc"},
-	"misc-api":        {"dm-pure", "qr-pure", "upca", "aztec-c"},
+	"misc-api":              {"dm-pure", "qr-pure", "upca", "aztec-c"},
+	"qr-r-hint-iana-latin1": {"qr-loc"}, "qr-r-hint-iana-koi8": {"qr-loc"},
 	"fail-qr-damaged": {"qr-pure"}, "fail-dm-damaged": {"dm-pure"}, "fail-1d-wrong-check": {"ean13"}, "fail-charset-hints": {"qr-pure"},
 	"rows-upcean": {"ean13", "ean8", "upca", "upce"}, "rows-other": {"code39", "code93", "code128", "itf", "codabar"}, "rss14-r-reset": {"rss14"},
 	"code93-r": {"code93"}, "code128-r": {"code128"}, "itf-r": {"itf"}, "codabar-r": {"codabar"}, "rss14-r": {"rss14"},
@@ -579,7 +580,8 @@ func all() []opLit {
 		{"qr-r-sjis-byte", func() string { return read(qrcode.NewQRCodeReader(), img("qr-sjis-byte"), nil) }},
 		{"qr-r-1251", func() string { return read(qrcode.NewQRCodeReader(), img("qr-1251"), nil) }},
 		{"qr-r-hint-charset", func() string {
-			return read(qrcode.NewQRCodeReader(), img("qr-pure"), D{gozxing.DecodeHintType_PURE_BARCODE: true, gozxing.DecodeHintType_CHARACTER_SET: "UTF-16BE"})
+			// a byte-mode symbol without ECI: the hint decides how its bytes are read
+			return read(qrcode.NewQRCodeReader(), img("qr-loc"), D{gozxing.DecodeHintType_CHARACTER_SET: "ISO-8859-15"})
 		}},
 		{"qr-r-v8", func() string { return read(qrcode.NewQRCodeReader(), img("qr-v8"), nil) }},
 		{"qr-r-mirrored", func() string { return read(qrcode.NewQRCodeReader(), img("qr-mirrored"), nil) }},
@@ -867,6 +869,18 @@ func all() []opLit {
 				sb.WriteString(write(qrcode.NewQRCodeWriter(), "x", QR, 0, 0, H{gozxing.EncodeHintType_CHARACTER_SET: n}) + ";")
 			}
 			return sb.String()
+		}},
+		{"qr-r-hint-iana-latin1", func() string {
+			// a CHARACTER_SET hint spelled with a name that is not in the ECI table but that the IANA index resolves
+			return read(qrcode.NewQRCodeReader(), img("qr-loc"), D{gozxing.DecodeHintType_CHARACTER_SET: "latin1"})
+		}},
+		{"qr-r-hint-iana-koi8", func() string {
+			return read(qrcode.NewQRCodeReader(), img("qr-loc"), D{gozxing.DecodeHintType_CHARACTER_SET: "KOI8-R"}) + ";" +
+				read(qrcode.NewQRCodeReader(), img("qr-loc"), D{gozxing.DecodeHintType_CHARACTER_SET: "csShiftJIS"}) + ";" +
+				read(qrcode.NewQRCodeReader(), img("qr-loc"), D{gozxing.DecodeHintType_CHARACTER_SET: "utf-8"})
+		}},
+		{"qr-w-hint-alias", func() string {
+			return write(qrcode.NewQRCodeWriter(), "é", QR, 0, 0, H{gozxing.EncodeHintType_CHARACTER_SET: "latin1"}) + ";" + write(qrcode.NewQRCodeWriter(), "é", QR, 0, 0, H{gozxing.EncodeHintType_CHARACTER_SET: "cp1252"}) + ";" + write(qrcode.NewQRCodeWriter(), "é", QR, 0, 0, H{gozxing.EncodeHintType_CHARACTER_SET: "UnicodeBig"})
 		}},
 		{"bm-parse-a", func() string { return parseRoundTrip(37, 11, 3) }},
 		{"bm-parse-b", func() string { return parseRoundTrip(64, 5, 7) }},
